@@ -4,6 +4,9 @@ package goja
 
 // Contracts for properties C04 (essential object invariants) and C11 (Proxy invariants).
 
+//@ axiom specIsUndefined(_undefined) [undefined]
+//@ axiom specIsNull(_null) [null]
+
 //@ func specSameValueOther uninterpreted
 //@ func specSameObjectOther uninterpreted
 
@@ -39,3 +42,105 @@ package goja
 //@ func (*PropertyDescriptor).IsData pure
 //@ func (*PropertyDescriptor).IsGeneric pure
 //@ func (Flag).Bool pure
+
+//@ func propToValueProp
+//@   props C11
+//@   ensures specPropOf(result) == specExistingOf(v) [same-record]
+//@   assigns nothing
+
+//@ func (*proxyObject).__sameValue
+//@   props C11
+//@   ensures val1 != nil ==> result == specSameValue(val1, val2) [samevalue]
+//@   ensures val1 == nil ==> result == (val2 == nil) [nil]
+//@   assigns nothing
+
+//@ func (*proxyObject).proxyHasChecks
+//@   props C11
+//@   capture ext bool = isExtensible#1
+//@   requires specExistingWF(targetProp) && target != nil
+//@   ensures old(specProxyHasFalseOK(targetProp, ext)) [accepts-only-valid]
+//@   ensures_panic !old(specProxyHasFalseOK(targetProp, ext)) [rejects-only-invalid]
+
+//@ func (*proxyObject).proxyGetChecks
+//@   props C11
+//@   requires specExistingWF(targetProp) && trapResult != nil
+//@   ensures old(specProxyGetOK(targetProp, trapResult)) [accepts-only-valid]
+//@   ensures_panic !old(specProxyGetOK(targetProp, trapResult)) [rejects-only-invalid]
+
+//@ func (*proxyObject).proxySetPostCheck
+//@   props C11
+//@   requires specExistingWF(targetProp)
+//@   ensures old(specProxySetOK(targetProp, value)) [accepts-only-valid]
+//@   ensures_panic !old(specProxySetOK(targetProp, value)) [rejects-only-invalid]
+
+//@ func (*proxyObject).proxyDeleteCheck
+//@   props C11
+//@   capture ext bool = isExtensible#1
+//@   requires specExistingWF(targetProp) && target != nil
+//@   ensures trapResult ==> old(specProxyDeleteOK(targetProp, ext)) [accepts-only-valid]
+//@   ensures_panic trapResult && !old(specProxyDeleteOK(targetProp, ext)) [rejects-only-invalid]
+
+//@ func (*proxyObject).proxyDefineOwnPropertyPostCheck
+//@   props C11
+//@   capture ext bool = isExtensible#1
+//@   requires specExistingWF(prop) && target != nil && specDescWF(descr)
+//@   ensures old(specProxyDefineOK(prop, ext, descr)) [accepts-only-valid]
+//@   ensures_panic !old(specProxyDefineOK(prop, ext, descr)) [rejects-only-invalid]
+
+// Assumed: asking the target whether it is extensible does not modify property records already
+// fetched from it (exact for every non-proxy target; a target that is itself a Proxy whose
+// isExtensible trap redefines the property is not covered).
+//@ iface objectImpl.isExtensible
+//@   props C11
+//@   trusted
+//@   assigns nothing
+
+// Assumed (not verified: runs getters of the descriptor object): ToPropertyDescriptor returns a
+// well-formed descriptor or throws.
+//@ func (*Runtime).toPropertyDescriptor
+//@   trusted
+//@   ensures specDescWF(ret) [wf]
+
+//@ func (*PropertyDescriptor).complete
+//@   requires p != nil
+//@   ensures *p == specComplete(old(*p)) [complete]
+//@   assigns fields(p)
+
+//@ func (*proxyObject).proxyGetOwnPropertyDescriptor
+//@   capture extU bool = isExtensible#1
+//@   capture extO bool = isExtensible#2
+//@   capture rd PropertyDescriptor = toPropertyDescriptor#1
+//@   requires specExistingWF(targetProp) && target != nil
+//@   ensures old(specProxyGOPDOK(targetProp, trapResult, extU, extO, rd)) [accepts-only-valid]
+//@   ensures_panic !old(specProxyGOPDOK(targetProp, trapResult, extU, extO, rd)) [rejects-only-invalid]
+
+//@ func (*Runtime).typeErrorResult
+//@   props C04
+//@   ensures !throw [returns-only-if-not-throw]
+//@   assigns nothing
+
+//@ func propGetter
+//@   props C04
+//@   requires v != nil
+//@   ensures result == specFuncOf(v) [func-or-nil]
+//@   assigns nothing
+
+//@ func propSetter
+//@   props C04
+//@   requires v != nil
+//@   ensures result == specFuncOf(v) [func-or-nil]
+//@   assigns nothing
+
+// ValidateAndApplyPropertyDescriptor (10.1.6.3) on an ordinary object: which definitions are
+// accepted, and what the property looks like afterwards.
+//@ func (*baseObject)._defineOwnProperty
+//@   props C04
+//@   requires o != nil && o.val != nil && specDescWF(descr) && specExistingWF(existingValue)
+//@   ensures ok == old(specValidate(o.extensible, descr, specExistingOf(existingValue))) [accept-eq]
+//@   ensures ok ==> specExistingOf(val) == old(specApply(descr, specExistingOf(existingValue))) [apply-eq]
+//@   ensures ok ==> specExistingWF(val) [wf-preserved]
+
+// assertCallable only hands out the call function; every implementation is checked to modify nothing.
+//@ iface objectImpl.assertCallable
+//@   props C04
+//@   assigns nothing
